@@ -35,7 +35,8 @@ type mval struct {
 type mtable struct {
 	id        int64
 	closable  bool
-	closeMode int // 0 plain, 1 raises, 2 calls function closeArg, 3 coroutine op on global C<closeArg>
+	stripped  bool // lost its __close after it was declared
+	closeMode int  // 0 plain, 1 raises, 2 calls function closeArg, 3 coroutine op on global C<closeArg>
 	closeArg  int
 }
 
@@ -119,6 +120,7 @@ const (
 	sCallStmt
 	sError
 	sRtErr
+	sStrip // getmetatable(X).__close = nil: a pending value loses its handler
 	sStorm // for _ = 1, n do pcall(error, "m") end: many caught errors, no event
 )
 
@@ -324,6 +326,8 @@ func (r *renderer) stmt(s *stmt) {
 		}
 	case sStorm:
 		s.line = r.ln(fmt.Sprintf(`for _ = 1, %d do pcall(error, "storm") pcall(string.rep) end`, s.n))
+	case sStrip:
+		s.line = r.ln(fmt.Sprintf("getmetatable(%s).__close = nil", s.name))
 	case sRtErr:
 		switch s.n {
 		case 0:
